@@ -3,8 +3,12 @@ package isish
 import (
 	"encoding/json"
 	"fmt"
+	"math/rand/v2"
+	"runtime"
 	"strings"
 	"time"
+
+	"github.com/bio-routing/bio-rd/protocols/device"
 )
 
 // Interface state change workload (C33).
@@ -15,16 +19,61 @@ type IfaceCase struct {
 	Adv     int    `json:"adv"` // mock seconds advanced after every event
 	// Ghost adds a second configured interface that never receives a device event
 	Ghost bool `json:"ghost,omitempty"`
+	// States, when set, is the operational state (RFC 2863 ifOperStatus as protocols/device reports it)
+	// each device event carries; Seq is derived from it (only IfOperUp is "link up", every other state is
+	// a link that cannot be used). The events are delivered through a device.Updater of the harness,
+	// because device.MockServer can only say up and down.
+	States []uint8 `json:"states,omitempty"`
+	// Inflight, when set, runs rounds of (link up, PDUs delivered to the socket, link loss without
+	// waiting for the receiver) in front of Seq: device events that race with PDUs being processed.
+	Inflight *Inflight `json:"inflight,omitempty"`
 }
+
+// Inflight describes the racing part of a scenario.
+type Inflight struct {
+	Rounds int      `json:"rounds"`
+	Frames []string `json:"frames"` // PDUs a neighbor sends after every link up: hello-down, hello-init, hello-up, lsp, csnp, psnp
+	Yields []int    `json:"yields"` // scheduler yields between the last PDU and the link loss event (round i uses Yields[i % len])
+	Loss   []uint8  `json:"loss"`   // operational states reporting the link loss (round i uses Loss[i % len])
+}
+
+var operNames = map[uint8]string{
+	device.IfOperUnknown: "unknown", device.IfOperNotPresent: "notPresent", device.IfOperDown: "down",
+	device.IfOperLowerLayerDown: "lowerLayerDown", device.IfOperTesting: "testing", device.IfOperDormant: "dormant", device.IfOperUp: "up",
+}
+
+// OperName names an operational state.
+func OperName(st uint8) string {
+	if n, ok := operNames[st]; ok {
+		return n
+	}
+	return fmt.Sprintf("oper%d", st)
+}
+
+// eventWatchdog bounds one device event in a racing scenario (they return within microseconds).
+const eventWatchdog = 15 * time.Second
 
 func (c IfaceCase) String() string {
 	var b strings.Builder
+	if c.Inflight != nil {
+		fmt.Fprintf(&b, "%dx(U,%s,", c.Inflight.Rounds, strings.Join(c.Inflight.Frames, "+"))
+		for _, st := range c.Inflight.Loss {
+			b.WriteString(OperName(st) + "|")
+		}
+		b.WriteString(")")
+	}
 	for _, u := range c.Seq {
+		if len(c.States) > 0 {
+			break
+		}
 		if u {
 			b.WriteByte('U')
 		} else {
 			b.WriteByte('D')
 		}
+	}
+	for _, st := range c.States {
+		b.WriteByte("KNDLTMU?"[min(int(st), 7)]) // unKnown Notpresent Down Lowerlayerdown Testing dorMant Up
 	}
 	k := "active"
 	if c.Passive {
@@ -70,6 +119,30 @@ func RunIface(c IfaceCase, out *Outcome, emit func(Sent)) {
 	const helloIv = 3
 	cfg := Cfg{Sys: dutSys, Area: dutArea, MockServer: true,
 		Ifaces: []IfCfg{{Name: "eth0", Passive: c.Passive, Hello: helloIv, Hold: 9, Metric: 10, Net: 0xa9fe6400}}}
+	if len(c.States) > 0 || c.Inflight != nil {
+		cfg.MockServer = false
+		cfg.Ifaces[0].Index = 3
+	}
+	if len(c.States) > 0 {
+		c.Seq = make([]bool, len(c.States))
+		for i, st := range c.States {
+			c.Seq[i] = st == device.IfOperUp
+		}
+	} else if c.Inflight != nil && len(c.Seq) == 0 {
+		c.Seq = []bool{true}
+	}
+	if len(c.Seq) == 0 {
+		out.Inconclusive = "bad case: no events"
+		return
+	}
+	// deliver hands event i of the sequence to the server
+	deliver := func(h *H, i int) {
+		if len(c.States) > 0 {
+			h.EventState("eth0", c.States[i])
+		} else {
+			h.Event("eth0", c.Seq[i])
+		}
+	}
 	if c.Ghost {
 		cfg.Ifaces = append(cfg.Ifaces, IfCfg{Name: "eth9", Hello: helloIv, Hold: 9, Metric: 10, Net: 0xa9fe6500})
 	}
@@ -98,8 +171,9 @@ func RunIface(c IfaceCase, out *Outcome, emit func(Sent)) {
 	}
 	h.AllSent = emit
 	out.Count("scenarios", 1)
+	poisoned := false // a device event never returned: the server must not be touched any more
 	unsettled := func() {
-		if h.Unsettled > 0 && out.Inconclusive == "" {
+		if h.Unsettled > 0 && out.Inconclusive == "" && !poisoned {
 			out.Inconclusive = "state did not become stable within the real-time cap"
 		}
 	}
@@ -112,7 +186,11 @@ func RunIface(c IfaceCase, out *Outcome, emit func(Sent)) {
 		return fmt.Sprintf("%s|%d|%d", AdjKey(h.Adjs()), n, seq)
 	}
 	// leave nothing behind that could fire while the next scenario runs in this process
-	defer func() { h.Settle(read) }()
+	defer func() {
+		if !poisoned {
+			h.Settle(read)
+		}
+	}()
 	step := func(n int) {
 		for i := 0; i < n; i++ {
 			h.Advance(time.Second)
@@ -120,20 +198,38 @@ func RunIface(c IfaceCase, out *Outcome, emit func(Sent)) {
 		}
 	}
 	everDown, transitions := false, 0
+	loss := "none" // how the most recent link loss was reported
+	if c.Inflight != nil {
+		if !runInflight(c, h, out, clause, feat, read) {
+			poisoned = out.Poisoned
+			return
+		}
+		everDown = true
+		loss = "raced"
+	}
 	for i, up := range c.Seq {
 		ev := "down"
 		if up {
 			ev = "up"
 		}
+		if len(c.States) > 0 {
+			ev = OperName(c.States[i])
+			if !up {
+				loss = ev
+			}
+		}
 		if i > 0 && c.Seq[i-1] != up {
 			transitions++
 		}
-		if pi, txt := Guard(func() { h.Event("eth0", up) }); pi != nil {
+		if pi, txt := Guard(func() { deliver(h, i) }); pi != nil {
 			out.Violate(clause("panic"), feat("event", ev, "panic", pi.Msg, "at", pi.At), "scenario %s: device event #%d (link %s) panicked: %s", c, i+1, ev, txt)
 			out.Count("panics_recovered", 1)
 			return
 		}
 		out.Count("events", 1)
+		if len(c.States) > 0 {
+			out.Count("events_oper_"+ev, 1)
+		}
 		if !up && i > 0 {
 			everDown = true
 		}
@@ -161,6 +257,12 @@ func RunIface(c IfaceCase, out *Outcome, emit func(Sent)) {
 		reup = "true"
 	}
 	out.Count("final_up_active", 1)
+	if len(c.States) > 0 || c.Inflight != nil {
+		// how the link loss before the final link up was reported is what distinguishes these scenarios
+		plain := feat
+		feat = func(kv ...string) map[string]string { return plain(append(kv, "loss", loss)...) }
+		out.Count("final_up_after_loss_"+loss, 1)
+	}
 	cur, all := h.Eth("eth0")
 	h.Take()
 	step(2 * helloIv)
@@ -266,6 +368,196 @@ func RunIface(c IfaceCase, out *Outcome, emit func(Sent)) {
 	} else {
 		out.Count("adjacency_formed", 1)
 	}
+}
+
+// inflightFrame builds one PDU of the neighbor on eth0.
+func inflightFrame(kind string, circ uint32, round int) []byte {
+	named := ThreeWay{State: AdjInit, HasExt: true, ExtCircuit: 7, HasNeighbor: true, NbrSys: dutSys, HasNbrCircID: true, NbrCircuit: circ}
+	switch kind {
+	case "hello-down":
+		return NbrHello(nbrASys, 0xa9fe6400, 30, &ThreeWay{State: AdjDown, HasExt: true, ExtCircuit: 7})
+	case "hello-init":
+		return NbrHello(nbrASys, 0xa9fe6400, 30, &named)
+	case "hello-up":
+		named.State = AdjUp
+		return NbrHello(nbrASys, 0xa9fe6400, 30, &named)
+	case "lsp":
+		return foreignLSP(MkLSPID(sysX, 0, 0), uint32(round+1), 1200)
+	case "csnp":
+		return BuildCSNP(CSNP{Source: SourceID(nbrASys), End: LSPID{0xff, 0xff, 0xff, 0xff, 0xff, 0xff, 0xff, 0xff},
+			TLVs: LSPEntriesTLVs([]SNPEntry{{Lifetime: 1200, ID: MkLSPID(sysY, 0, 0), Seq: uint32(round + 1), Checksum: 0x1234}})})
+	case "psnp":
+		return BuildPSNP(PSNP{Source: SourceID(nbrASys), TLVs: LSPEntriesTLVs([]SNPEntry{{Lifetime: 1200, ID: MkLSPID(sysY, 0, 0), Seq: uint32(round + 1), Checksum: 0x1234}})})
+	}
+	return nil
+}
+
+// serverGoroutines returns the stacks of the goroutines that are inside bio-rd's IS-IS server and the
+// innermost bio-rd function of the one that runs marker (e.g. "DeviceUpdate").
+func serverGoroutines(marker string) (dump string, at string) {
+	buf := make([]byte, 1<<20)
+	buf = buf[:runtime.Stack(buf, true)]
+	var keep []string
+	for _, g := range strings.Split(string(buf), "\n\n") {
+		if !strings.Contains(g, "bio-rd/protocols/isis/server.") {
+			continue
+		}
+		keep = append(keep, g)
+		if at == "" && strings.Contains(g, marker) {
+			at = ClassifyPanic("", g).At
+		}
+	}
+	dump = strings.Join(keep, "\n\n")
+	if len(dump) > 6000 {
+		dump = dump[:6000]
+	}
+	return dump, at
+}
+
+// runInflight runs the racing rounds of a scenario: link up, PDUs of a neighbor delivered to the socket,
+// link loss reported without waiting for the receiver goroutine. Every device event must return. It
+// returns false when the scenario cannot go on (violation recorded).
+func runInflight(c IfaceCase, h *H, out *Outcome, clause func(string) string, feat func(...string) map[string]string, read func() string) bool {
+	in := c.Inflight
+	if c.Passive || in.Rounds <= 0 || len(in.Frames) == 0 {
+		out.Inconclusive = "bad case: racing rounds need an active interface and frames"
+		return false
+	}
+	loss, yields := in.Loss, in.Yields
+	if len(loss) == 0 {
+		loss = []uint8{device.IfOperDown}
+	}
+	if len(yields) == 0 {
+		yields = []int{0}
+	}
+	circ := h.CircuitID("eth0")
+	// watched runs one device event; it must return
+	watched := func(round int, st uint8) bool {
+		ev := OperName(st)
+		var pi *PanicInfo
+		var txt string
+		done := make(chan struct{})
+		go func() {
+			defer close(done)
+			pi, txt = Guard(func() { h.EventState("eth0", st) })
+		}()
+		out.Count("events", 1)
+		out.Count("event_watchdog_checks", 1)
+		select {
+		case <-done:
+		case <-time.After(eventWatchdog):
+			dump, at := serverGoroutines("DeviceUpdate")
+			out.Poisoned = true
+			out.Violate(clause("event-hang"), feat("event", ev, "raced_with", strings.Join(in.Frames, "+"), "blocked_in", at),
+				"scenario %s: round %d: the device event reporting %s did not return within %s while PDUs a neighbor had just sent were being received: the device server's notifier is stuck and the interface can never be restarted. Goroutines inside the IS-IS server:\n%s", c, round+1, ev, eventWatchdog, dump)
+			return false
+		}
+		if pi != nil {
+			out.Violate(clause("panic"), feat("event", ev, "panic", pi.Msg, "at", pi.At), "scenario %s: round %d: device event (%s) panicked: %s", c, round+1, ev, txt)
+			out.Count("panics_recovered", 1)
+			return false
+		}
+		return true
+	}
+	for r := 0; r < in.Rounds; r++ {
+		if !watched(r, device.IfOperUp) {
+			return false
+		}
+		cur, _ := h.Eth("eth0")
+		if cur == nil || cur.Closed() {
+			// judged by the final part of the scenario (no handle / closed handle after link up)
+			out.Count("inflight_rounds_without_handle", 1)
+		} else {
+			for _, k := range in.Frames {
+				if f := inflightFrame(k, circ, r); f != nil {
+					cur.SendFromRemote(nbrAMAC, WithLLC(f))
+				}
+			}
+			for y := yields[r%len(yields)]; y > 0; y-- {
+				runtime.Gosched()
+			}
+			// where the PDUs are when the link loss is reported (measured, not assumed)
+			entered, delivered := cur.Rx()
+			switch {
+			case delivered >= 1 && entered == delivered:
+				out.Count("loss_events_with_pdu_being_processed", 1)
+			case delivered < len(in.Frames):
+				out.Count("loss_events_with_pdu_queued", 1)
+			default:
+				out.Count("loss_events_after_pdus_processed", 1)
+			}
+		}
+		if !watched(r, loss[r%len(loss)]) {
+			return false
+		}
+		out.Count("inflight_rounds", 1)
+	}
+	h.Settle(read)
+	return true
+}
+
+// IfaceStateCases enumerates every sequence of operational states of length 1..maxLen.
+func IfaceStateCases(maxLen int, passive bool, adv int) []IfaceCase {
+	var out []IfaceCase
+	var rec func(prefix []uint8)
+	rec = func(prefix []uint8) {
+		if len(prefix) > 0 {
+			out = append(out, IfaceCase{Passive: passive, Adv: adv, States: append([]uint8{}, prefix...)})
+		}
+		if len(prefix) == maxLen {
+			return
+		}
+		for st := uint8(device.IfOperUnknown); st <= device.IfOperUp; st++ {
+			rec(append(prefix, st))
+		}
+	}
+	rec(nil)
+	return out
+}
+
+// GenIfaceStateCase draws a longer sequence of operational states (length 4..8, half of the events link up).
+func GenIfaceStateCase(rng *rand.Rand) IfaceCase {
+	c := IfaceCase{Passive: rng.IntN(5) == 0, Adv: []int{0, 0, 6}[rng.IntN(3)]}
+	for n := 4 + rng.IntN(5); n > 0; n-- {
+		st := uint8(device.IfOperUp)
+		if rng.IntN(2) == 0 {
+			st = uint8(rng.IntN(int(device.IfOperUp)))
+		}
+		c.States = append(c.States, st)
+	}
+	if rng.IntN(3) > 0 {
+		c.States[len(c.States)-1] = device.IfOperUp
+	}
+	return c
+}
+
+// GenInflightCase draws a racing scenario.
+func GenInflightCase(rng *rand.Rand, rounds int) IfaceCase {
+	kinds := []string{"hello-down", "hello-init", "hello-up", "lsp", "csnp", "psnp"}
+	in := &Inflight{Rounds: rounds}
+	switch rng.IntN(4) {
+	case 0:
+		in.Frames = []string{"hello-init"}
+	case 1:
+		in.Frames = []string{"hello-init", "hello-up"}
+	case 2:
+		in.Frames = []string{"hello-init", "hello-up", kinds[3+rng.IntN(3)]}
+	default:
+		for n := 1 + rng.IntN(4); n > 0; n-- {
+			in.Frames = append(in.Frames, kinds[rng.IntN(len(kinds))])
+		}
+	}
+	for n := 1 + rng.IntN(4); n > 0; n-- {
+		in.Yields = append(in.Yields, []int{0, 0, 1, 2, 3, 5, 10, 30}[rng.IntN(8)])
+	}
+	in.Loss = []uint8{device.IfOperDown}
+	if rng.IntN(2) == 0 {
+		in.Loss = nil
+		for n := 1 + rng.IntN(3); n > 0; n-- {
+			in.Loss = append(in.Loss, uint8(rng.IntN(int(device.IfOperUp))))
+		}
+	}
+	return IfaceCase{Adv: 0, Inflight: in, Seq: []bool{true}}
 }
 
 func genOf(e *Eth) int {
